@@ -939,18 +939,24 @@ def _run_cell(G, fm, spec, sspec, feats, scal, unscal, ustar, p, Ju, Jp, cell, c
             return 'max |diff| %.3e at [%d] (tolerance %.3e)' % (err[i], i, float(np.broadcast_to(tol, err.shape)[i]))
         return None
 
-    # ---- plain twin against R: a disagreement here is not a scaling matter
-    plain_ok = True
+    # ---- plain twin against R.  A disagreement here is not a scaling matter (C01/C04 territory), but DESIGN lists
+    #      "either twin differs from R" as a refutation: reported under its own key, the scaled twin is then not judged
+    plain_bad = None
     for n in fm.state_names:
         a, b = fm.soff[n]
-        if cmp_vals('', rp['u'][a:b], ustar[a:b], bp['ebound'][a:b]):
-            plain_ok = False
+        m = cmp_vals('', rp['u'][a:b], ustar[a:b], bp['ebound'][a:b])
+        if m:
+            plain_bad = ('outputs', '%s: %s' % (n, m))
+            break
     Jref_p = _ref_totals(fm, of, wrt, rp['u'], p)
     lin_fail_p = bool(rp.get('lin_failures'))
-    if not lin_fail_p and cmp_vals('', rp['J'], Jref_p, bp['abs_J'][mode], bp['rel_J']):
-        plain_ok = False
-    if not plain_ok:
-        acc.skip('plain-twin-differs-from-reference(C01/C04 territory)')
+    if plain_bad is None and not lin_fail_p and bp['rel_J'] <= 1e-5:
+        m = cmp_vals('', rp['J'], Jref_p, bp['abs_J'][mode], bp['rel_J'])
+        if m:
+            plain_bad = ('totals', m)
+    if plain_bad:
+        acc.viol('plain-twin-%s-differ-from-reference(no-scaling-involved):nl=%s:ln=%s:mode=%s' %
+                 (plain_bad[0], nl_name, ln_name, mode), plain_bad[1], ccase)
         return
 
     # ---- scaled twin: outputs
@@ -995,8 +1001,6 @@ def _run_cell(G, fm, spec, sspec, feats, scal, unscal, ustar, p, Ju, Jp, cell, c
     totals_judged = False
     if lin_fail_s or lin_fail_p:
         acc.count('unjudged:totals(linear-solver-nonconvergence)')
-        if os.environ.get('OMV_DEBUG'):
-            print('LINFAIL', cell, rsd.get('lin_failures'), rp.get('lin_failures'))
     elif bs['rel_J'] > 1e-5:
         acc.count('unjudged:totals(scaled-system-ill-conditioned)')
     elif max(bs['abs_J'][mode], bp['abs_J'][mode]) > 1e-5 * max(1.0, float(np.max(np.abs(Jref_p), initial=0.0))):
